@@ -1414,6 +1414,10 @@ func runC10(c *core.Ctx) {
 		t0 = time.Now()
 	}
 
+	if run("decoded-region-bounds") {
+		c10DecodedRegions(c)
+		lap("decoded-region-bounds")
+	}
 	if run("region-bounds") {
 		cat := c10Catalogue(c, structural)
 		lap("build region catalogue")
